@@ -133,15 +133,15 @@ def get_instance_tracker(instances_file_input=None, graph_file_input=None,
     pure_instances_tracker = None
 
     if _are_there_selectors(shape_map_file, shape_map_raw):
-        sgraph = _get_adequate_sgraph(endpoint_url=url_endpoint,
-                                      raw_graph=raw_graph,
-                                      graph_file_input=graph_file_input,
-                                      url_input=url_input,
-                                      graph_format=input_format,
-                                      built_remote_graph=built_remote_graph,
-                                      disable_endpoint_cache=disable_endpoint_cache)
         valid_shape_map = built_shape_map
-        if built_shape_map is None:
+        if built_shape_map is None:  # the graph to solve the selectors is needed only if the shape map is not built yet
+            sgraph = _get_adequate_sgraph(endpoint_url=url_endpoint,
+                                          raw_graph=raw_graph,
+                                          graph_file_input=graph_file_input,
+                                          url_input=url_input,
+                                          graph_format=input_format,
+                                          built_remote_graph=built_remote_graph,
+                                          disable_endpoint_cache=disable_endpoint_cache)
             shape_map_parser = get_shape_map_parser(format=shape_map_format,
                                                     sgraph=sgraph,
                                                     namespaces_prefix_dict=namespaces_dict)
